@@ -2,10 +2,12 @@
 (* Bounded instance for C01: string + generic key commands.                 *)
 EXTENDS MCBase
 
+CONSTANT Quick
 k1 == <<107>>  K1 == <<75>>  kl == <<108>>      \* "k", "K" (case twin), "l" (a list)
-Vals == {<<>>, <<97>>, <<98, 13, 10>>}          \* "", "a", "b\r\n"
-Idx == {-3, -1, 0, 1, 2}
+Vals == IF Quick THEN {<<>>, <<97>>, <<13, 10>>} ELSE {<<>>, <<97>>, <<98, 13, 10>>}          \* "", "a", "b\r\n"
+Idx == IF Quick THEN {-2, 0, 1} ELSE {-3, -1, 0, 1, 2}
 AKeys == {k1, K1, kl}
+MKeys == IF Quick THEN {k1, kl} ELSE AKeys     \* keys used by the less case-sensitive-critical commands
 B(i) == IntToBytes(i)
 
 StringCmds ==
@@ -16,25 +18,28 @@ StringCmds ==
         <<L_set, k1, <<97>>, L_ex, B(100), L_keepttl>>, <<L_set, k1, <<97>>, L_exat, B(T0 + 100)>>, <<L_set, k1>>, <<L_set>>,
         <<L_set, k1, <<97>>, <<66>>>>, <<L_set, k1, <<97>>, L_xx, L_ex, B(50)>>}
   \cup {<<L_get, k>> : k \in AKeys} \cup {<<L_get>>}
-  \cup {<<L_strlen, k>> : k \in AKeys}
+  \cup {<<L_strlen, k>> : k \in MKeys}
   \cup {<<L_append, k, v>> : k \in {k1, kl}, v \in {<<>>, <<97>>}}
   \cup {<<L_getrange, k, B(i), B(j)>> : k \in {k1, kl}, i \in Idx, j \in Idx} \cup {<<L_getrange, k1, <<97>>, B(0)>>}
   \cup {<<L_setrange, k, B(i), v>> : k \in {k1, kl}, i \in {0, 1, 3}, v \in {<<>>, <<120>>}} \cup {<<L_setrange, k1, B(-1), <<120>>>>}
   \cup {<<L_mset, k1, <<97>>, K1, <<97>>>>, <<L_mset, k1, <<97>>, kl, <<97>>>>, <<L_mset, k1, <<97>>, k1, <<>>>>, <<L_mset, k1>>}
   \cup {<<L_mget, k1, K1, kl>>, <<L_mget, k1, k1>>}
-  \cup {<<L_setnx, k, <<97>>>> : k \in AKeys}
+  \cup {<<L_setnx, k, <<97>>>> : k \in MKeys}
   \cup {<<L_setex, k1, B(100), <<97>>>>, <<L_setex, kl, B(100), <<97>>>>, <<L_setex, k1, <<97>>, <<97>>>>, <<L_setex, k1, B(0), <<97>>>>}
   \cup {<<L_del, k>> : k \in AKeys} \cup {<<L_del, k1, K1>>, <<L_del, k1, k1>>, <<L_del>>}
   \cup {<<L_exists, k>> : k \in AKeys} \cup {<<L_exists, k1, k1, K1>>}
-  \cup {<<L_type, k>> : k \in AKeys}
-  \cup {<<L_rename, a, b>> : a \in AKeys, b \in AKeys}
+  \cup {<<L_type, k>> : k \in MKeys}
+  \cup {<<L_rename, a, b>> : a \in MKeys, b \in MKeys} \cup {<<L_rename, k1, K1>>, <<L_rename, K1, k1>>}
   \cup {<<L_keys, L_star>>, <<L_keys, <<107>>>>, <<L_ping>>, <<L_ping, <<97, 13, 10>>>>}
   \cup {<<L_ttl, k1>>, <<L_persist, k1>>, <<L_expire, k1, B(100)>>}
   \cup {<<<<83, 69, 84>>, k1, <<97>>>>, <<<<71, 101, 84>>, k1>>}   \* SET / GeT: command names are case-insensitive
 
 StringSetup == << <<L_rpush, kl, <<97>>>> >>
 \* bound: k1 holds strings of length <= 3, every other string has length <= 1
-StringBound(s) == \A k \in DOMAIN s.db : s.db[k].t = "string" => Len(s.db[k].v) <= (IF k = k1 THEN 3 ELSE 1)
+StringBound(s) ==
+  /\ \A k \in DOMAIN s.db : s.db[k].t = "string" => Len(s.db[k].v) <= (IF k = k1 THEN (IF Quick THEN 2 ELSE 3) ELSE 1)
+  \* quick: do not explore behind states the ambiguity alternatives lead to (l overwritten by a string), nor deadlines on other keys
+  /\ (Quick => (\A k \in DOMAIN s.db : k = kl => s.db[k].t = "list") /\ DOMAIN s.exp \subseteq {k1})
 
 \* ---- numeric instance: one key, 64-bit integer and exact-decimal arithmetic ----
 NumVals == {<<48>>, <<49>>, <<45,49>>, <<57>>, <<97>>, <<>>, BigStr(Int64Max), BigStr(Int64Min), <<48,48,55>>}
@@ -46,5 +51,10 @@ NumCmds ==
   \cup {<<L_set, K1, v>> : v \in FloatVals} \cup {<<L_get, K1>>}
   \cup {<<L_incrbyfloat, K1, n>> : n \in {<<49,46,53>>, <<45,48,46,53>>, <<97>>, <<50>>, <<48,46,50,53>>}} \cup {<<L_incrbyfloat, kl, <<49>>>>}
   \cup {<<L_incr>>, <<L_incrby, k1>>, <<L_incrbyfloat, K1>>, <<L_decrby, k1, <<49>>, <<49>>>>}
-NumBound(s) == \A k \in DOMAIN s.db : s.db[k].t = "string" => (Len(s.db[k].v) <= (IF k = K1 THEN 3 ELSE 2) \/ s.db[k].v \in NumVals)
+\* integers on k: |n| <= 12 or one of the seeded values; exact decimals on K: -1 < x < 5, at most one fractional digit
+SmallDec(v, lo, hi) == LET p == ParseDec(v) IN p.ok /\ ~p.corner /\ p.sc <= 1 /\ Len(v) <= 3
+                         /\ DecLess(DecOfBig(BigOfInt(lo)), p) /\ DecLess(p, DecOfBig(BigOfInt(hi)))
+NumBound(s) == \A k \in DOMAIN s.db : s.db[k].t = "string" =>
+                 IF k = K1 THEN s.db[k].v \in FloatVals \/ SmallDec(s.db[k].v, -1, 5)
+                 ELSE s.db[k].v \in NumVals \/ (SmallDec(s.db[k].v, -13, 13) /\ ParseBig(s.db[k].v).ok)
 =============================================================================
